@@ -66,6 +66,12 @@ CLAIMED['C16'] = dict(tech='relational effect summaries of include/exclude/_new 
          'matrices computed without z, start ranges keep windows inside sequences, and every random draw uses the caller-supplied RNG (determinism).',
     ref='DESIGN.md §4 C16')
 
+CLAIMED['C17'] = dict(tech='wrapper/core callee agreement over the call graph, finite table of the method-string match, unused-argument dataflow, guard-polarity deviance, dominance (configure before score), panic-site inventory of the binding',
+    text='Static (part): the binding adds no arithmetic, so what is checked is plumbing: 18 wrappers reach the core method(s) of the same name for both alphabets (p-value/score via the "meme"/"tfmpvalue" table), '
+         'every named argument is read and threshold/block_size reach the scanner, log_odds rescales exactly when the background differs, configure dominates scoring with the same operands, '
+         'create/from_counts share the conversion chain, and all 100+ panic sites of the binding\'s own bodies are discharged so argument errors are exceptions. Numerical equality is inherited from C01-C10, C14.',
+    ref='DESIGN.md §4 C17')
+
 NA = {
     'C11': 'numeric agreement of a tabulated distribution with the exact tail probability: quantifies over run-time floating-point values; no sound static argument in reach (DESIGN.md §6)',
     'C12': 'bounds computed probability ranges by exact tail probabilities at a granularity: run-time numerics, no structural necessary condition (DESIGN.md §6)',
